@@ -532,6 +532,10 @@ def _run(world: World, plan):
         for r in mon.values():
             if r['is_peer'] and r['states'] and r['states'][-1][0] == ConnectionState.CONNECTED and r['conn'] not in reg:
                 world.violate('C10.registry_missing', **facts_of(r), at=tag)
+            # ... and so must every connection that is being opened by a still-running attempt
+            if r['is_peer'] and r['states'] and r['states'][-1][0] == ConnectionState.CONNECTING and r['conn'] not in reg \
+                    and r['conn'].state == ConnectionState.CONNECTING:
+                world.violate('C10.registry_missing', **facts_of(r), at=tag, what='being opened')
         have = [tr.get_extra_info('peername') for tr in open_trs]
         extra_sockets = list(have)
         for w in want:
